@@ -174,6 +174,7 @@ type World struct {
 	honestCompl  map[int]map[int]bool      // dealer -> honest complainers
 	ansFirst     map[int]map[int]*ansInfo  // dealer -> complainer -> first answer
 	badAnswer    map[int]bool              // dealer broadcast an answer of wrong shape in rounds 1..3
+	firstPriv    map[[2]int]*Msg           // (dealer, receiver) -> first private message delivered in round 1 (Qual / Joint-Feldman)
 	shareFirst   map[int]*Msg              // plain VSS: receiver -> first private message from the dealer (delivery order)
 	nonzeroSched bool
 	aborted      bool
